@@ -294,6 +294,9 @@ package common
 
 //@ func (ver *VersionedTransaction) PayloadHash
 //@   property C06
+//@   -- C28's abstraction: the payload hash is a fixed attribute TxHash(ver) of the transaction object while a snapshot is validated
+//@   -- (no function under contract there writes a payload field). Assumed, not verified against the body. TxHash: zz_contracts_c28_verif.go
+//@   assumes result == TxHash(ver)
 //@   requires ver != nil && TxPayloadOK(&ver.SignedTransaction.Transaction)
 //@   maypanic
 //@   modifies ver.pmbytes, ver.hash
